@@ -4,7 +4,7 @@ NOT_BUILT = "check not built yet in this round (design in DESIGN.md section 3); 
 
 
 def fill(claim, na):
-    for p in ["C04",  "C10"]:
+    for p in ["C10"]:
         na(p, NOT_BUILT)
     na("C05", "equality of decoded flux with the sector dump is a statement about decoding arbitrary bit-streams "
               "(gap lengths, sync search, bit order, opcode placement); no clause is visible in the shape of the code "
@@ -146,3 +146,13 @@ def fill(claim, na):
           "policy switches) is a search over runtime state and is not decided.",
           "Trusts std::map semantics and value semantics of selectors.",
           "DESIGN.md 3/C16")
+    claim("C04",
+          "must-dataflow bound and divisor rules on FileView::read_block; short-read rule on the block presenter; "
+          "table agreement of the MMB reader with doc/mmb.5 (status switch folded per value, size constants); "
+          "dependency analysis of the slot offset; shape rule on the two-sided view parameters",
+          "Decides structural clauses for every container, geometry and slot: out-of-surface reads fail, no short block "
+          "is served, MMB statuses/sizes are the documented ones, a slot's offset depends on its number only, and the "
+          "interleaved/non-interleaved views have the documented take/leave/skip shape. The stride arithmetic inside "
+          "FileView::read_block and geometry probing are not decided.",
+          "Trusts doc/mmb.5 as the layout specification.",
+          "DESIGN.md 3/C04")
